@@ -71,6 +71,17 @@ def search(chk, broken):
         rec = R / 7
         if rng.random() < 0.4:
             R, rec = rng.choice([300.0, 600.0]), rng.choice([0.5, 1.0, 1.5])    # range rows in (nearly) every step, also in the step of a crossing
+        if rng.random() < 0.5:
+            # a long-used calculator: it has just served another rifle (a fast one, fired or zeroed at short range — that flight ends
+            # supersonic); the events of the next shot are those of the next shot alone
+            warm = pbc.Shot(pbc.Weapon(U.Inch(2), 12), pbc.Ammo(pbc.DragModel(0.3, pbc.TableG7), U.FPS(rng.uniform(2400, 3000))))
+            try:
+                if rng.random() < 0.5:
+                    calc.fire(warm, U.Foot(rng.choice([150.0, 300.0])), U.Foot(50.0), rng.random() < 0.5)
+                else:
+                    calc.set_weapon_zero(warm, U.Yard(100))
+            except Exception:  # noqa
+                pass
         try:
             rows = calc.fire(shot, U.Foot(R), U.Foot(rec), True).trajectory
             dense = calc.fire(shot, U.Foot(R), U.Foot(2.0), False).trajectory
